@@ -455,6 +455,7 @@ func hashes() {
 	// strings a convenience layer might interpret (hash spellings, qualified names) are data
 	fixed = append(fixed, gen.ShapedSecrets()...)
 	users = append(users, gen.ShapedUsers()[:12]...)
+	users = append(users, gen.CaseSpecials()...)
 	for _, pw := range gen.ShapedSecrets() {
 		if isASCII7(pw) {
 			checkLM(pw)
